@@ -147,8 +147,49 @@ func (c *Conc) bodyText(tok string, named bool, pair string) string {
 	if len(p) == 0 {
 		panic("unknown body token " + tok)
 	}
-	t := p[pick(c.Seed, len(p), "body", tok, pair)]
-	return expandReturn(t, named)
+	t := expandReturn(p[pick(c.Seed, len(p), "body", tok, pair)], named)
+	return bodyEnding(tok, shadowLocals(tok, t))
+}
+
+// shadowBlock: locals named like the packages resolver.gotpl reserves (time, errors, io, strconv, sync,
+// bytes), with selector expressions on them: imports.Prune must tell `time.Now()` on a LOCAL from a use of
+// package time - otherwise the reserved import stays in the regenerated file ("imported and not used").
+// Deliberately part of EVERY b1 body (after a leading line comment, if the body starts with one).
+const shadowBlock = `{
+	time := struct{ Now func() int }{Now: func() int { return 1 }}
+	errors, io := time, &time
+	strconv, sync, bytes := time, time, time
+	_, _, _, _, _, _ = time.Now(), errors.Now(), io.Now(), strconv.Now(), sync.Now(), bytes.Now()
+}
+`
+
+func shadowLocals(tok, t string) string {
+	if tok != "b1" {
+		return t
+	}
+	if strings.HasPrefix(t, "//") {
+		i := strings.Index(t, "\n")
+		return t[:i+1] + shadowBlock + t[i+1:]
+	}
+	return shadowBlock + t
+}
+
+// bodyEnding makes the END of a body adversarial, deliberately for every body of a token: the last line of
+// a b1 body ends in a // line comment (whatever follows on that line in the regenerated file is swallowed),
+// the last line of a b2c body ends in a /* */ comment.
+func bodyEnding(tok, t string) string {
+	last := t[strings.LastIndex(t, "\n")+1:]
+	switch tok {
+	case "b1":
+		if !strings.Contains(last, "//") {
+			t += " // trailing line comment }"
+		}
+	case "b2c":
+		if !strings.HasSuffix(strings.TrimSpace(last), "*/") {
+			t += " /* trailing block comment } */"
+		}
+	}
+	return t
 }
 
 // expandReturn replaces %R(expr) (expr up to the matching parenthesis).
